@@ -68,6 +68,53 @@ build() {
         exit 2
     fi
 }
+# A copy of the library in which std's unkeyed DefaultHasher is replaced by a hasher with a
+# seven-value digest, and the harness built against it (fpsim-weak). Hash collisions are legal events
+# that SipHash makes astronomically rare; code that takes a digest for the identity of a string (a memo
+# keyed by `hasher.finish()`) is wrong for colliding inputs, which exist, and only this makes them
+# reachable. Nothing is built when the library's source does not mention DefaultHasher.
+uses_default_hasher() { grep -rq "DefaultHasher" /repo/src 2>/dev/null; }
+build_weak() {
+    SH="$ROOT/target/shadow/lfp-weakhash"
+    rm -rf "$SH"; mkdir -p "$SH"
+    cp -r /repo/src "$SH/src"; cp /repo/Cargo.toml "$SH/Cargo.toml"
+    find "$SH/src" -name '*.rs' -print0 | xargs -0 sed -i -E \
+        -e 's/(::)?\bstd::collections::hash_map::DefaultHasher\b/crate::__verif_hash::DefaultHasher/g' \
+        -e 's/(::)?\bstd::hash::DefaultHasher\b/crate::__verif_hash::DefaultHasher/g' \
+        -e 's/(^|[^:A-Za-z_])hash_map::DefaultHasher\b/\1crate::__verif_hash::DefaultHasher/g' \
+        -e 's/^(\s*use\s+std::hash::\{[^}]*)\bDefaultHasher\b\s*,?/\1/' \
+        -e 's/^(\s*use\s+std::collections::hash_map::\{[^}]*)\bDefaultHasher\b\s*,?/\1/'
+    # files that named the type through a grouped import get it back from the stand-in
+    for f in $(grep -rl "DefaultHasher" "$SH/src" --include='*.rs'); do
+        grep -q "__verif_hash::DefaultHasher" "$f" || sed -i '1i #[allow(unused_imports)] use crate::__verif_hash::DefaultHasher;' "$f"
+    done
+    cat > "$SH/src/__verif_hash.rs" <<'RS'
+//! Stand-in for std's DefaultHasher: same interface, a digest with seven values.
+#[derive(Clone, Debug, Default)]
+pub struct DefaultHasher(u64);
+impl DefaultHasher {
+    pub fn new() -> DefaultHasher {
+        DefaultHasher(0)
+    }
+}
+impl std::hash::Hasher for DefaultHasher {
+    fn write(&mut self, bytes: &[u8]) {
+        for b in bytes {
+            self.0 = self.0.wrapping_mul(3).wrapping_add(*b as u64);
+        }
+    }
+    fn finish(&self) -> u64 {
+        self.0 % 7
+    }
+}
+RS
+    printf '\n#[allow(dead_code)]\nmod __verif_hash;\n' >> "$SH/src/lib.rs"
+    if ! (cd "$ROOT/sim-weak" && cargo build --release --offline >"$ROOT/target.build.log.weak" 2>&1); then
+        echo "note: the copy of the library with the weak DefaultHasher does not build; the weak-hash pass is skipped (see $ROOT/target.build.log.weak)" >&2
+        return 1
+    fi
+    return 0
+}
 build_debug() {
     make_shadow
     make_dict
@@ -89,12 +136,24 @@ case "${1:-}" in
     replay)
         build
         # a replay file found by the dev-profile pass is replayed with the dev-profile binary
+        if grep -q '"profile": *"weakhash"' "$2" 2>/dev/null; then
+            if uses_default_hasher && build_weak; then exec "$ROOT/target/release/fpsim-weak" replay "$2"; fi
+            # the tree no longer uses DefaultHasher (or the copy does not build): nothing to replay against
+            echo "replay $2: no violation (the weak-hash copy of the library is not applicable to this tree)"; exit 0
+        fi
         if grep -q '"profile": *"debug"' "$2" 2>/dev/null; then
             build_debug; exec "$ROOT/target/debug/fpsim" replay "$2"
         fi
         exec "$ROOT/target/release/fpsim" replay "$2" ;;
     C15|C16|C20)
         build
+        if [ "$1" != C16 ] && uses_default_hasher && build_weak; then
+            # reduced history pass against the copy with the weak DefaultHasher
+            runs=10000; [ "${2:-quick}" = thorough ] && runs=200000
+            VERIF_PROFILE_PASS=weakhash VERIF_RUNS=$runs "$ROOT/target/release/fpsim-weak" check "$1" quick
+            code=$?
+            if [ "$code" != 0 ]; then exit "$code"; fi
+        fi
         if [ "${2:-quick}" = thorough ] && [ -z "${VERIF_SKIP_DEBUG_PASS:-}" ]; then
             # reduced pass with the library built under the dev profile (debug assertions, overflow checks)
             build_debug
